@@ -36,7 +36,8 @@ Inductive op :=
  | BAssign | BAddAssign | BSubAssign | BMulAssign | BDivAssign | BRemAssign | BPowAssign
  | BShlAssign | BShrAssign | BUShrAssign | BBitOrAssign | BBitAndAssign | BBitXorAssign
  | BNullishAssign | BLogOrAssign | BLogAndAssign
- | UAwait.  (* not a js_ast.OpCode: EAwait, which printExpr treats like a keyword prefix operator of level LPrefix *)
+ | UAwait   (* not a js_ast.OpCode: EAwait, which printExpr treats like a keyword prefix operator of level LPrefix *)
+ | UYield.  (* not a js_ast.OpCode: EYield with an operand and without the star: a keyword prefix operator of level LAssign whose operand is printed at LYield *)
 
 (* the operators of js_ast.OpTable, in OpCode order *)
 Definition table_ops : list op :=
@@ -47,7 +48,7 @@ Definition table_ops : list op :=
   BAssign; BAddAssign; BSubAssign; BMulAssign; BDivAssign; BRemAssign; BPowAssign;
   BShlAssign; BShrAssign; BUShrAssign; BBitOrAssign; BBitAndAssign; BBitXorAssign;
   BNullishAssign; BLogOrAssign; BLogAndAssign].
-Definition all_ops : list op := table_ops ++ [UAwait].
+Definition all_ops : list op := table_ops ++ [UAwait; UYield].
 
 (* js_ast.OpCode value: position in all_ops (UnOpPos = 0 ... ) *)
 Fixpoint index_of (eqb : op -> op -> bool) (o : op) (l : list op) (i : Z) : Z :=
@@ -66,19 +67,19 @@ Definition op_str (o : op) : string :=
   | BRemAssign => "%=" | BPowAssign => "**=" | BShlAssign => "<<=" | BShrAssign => ">>="
   | BUShrAssign => ">>>=" | BBitOrAssign => "|=" | BBitAndAssign => "&=" | BBitXorAssign => "^="
   | BNullishAssign => "??=" | BLogOrAssign => "||=" | BLogAndAssign => "&&="
-  | UAwait => "await"
+  | UAwait => "await" | UYield => "yield"
   end%string.
 Definition op_text (o : op) : list Z := zs (op_str o).
 
 Inductive okind := KPre | KPost | KBin.
 Definition op_kind (o : op) : okind :=
   match o with
-  | UPos | UNeg | UCpl | UNot | UVoid | UTypeof | UDelete | UPreDec | UPreInc | UAwait => KPre
+  | UPos | UNeg | UCpl | UNot | UVoid | UTypeof | UDelete | UPreDec | UPreInc | UAwait | UYield => KPre
   | UPostDec | UPostInc => KPost
   | _ => KBin
   end.
 Definition op_is_keyword (o : op) : bool :=
-  match o with UVoid | UTypeof | UDelete | BIn | BInstanceof | UAwait => true | _ => false end.
+  match o with UVoid | UTypeof | UDelete | BIn | BInstanceof | UAwait | UYield => true | _ => false end.
 
 (* js_ast.L as a number: LLowest = 0 ... LMember = 22 *)
 Definition LLowest := 0. Definition LComma := 1. Definition LYield := 3. Definition LAssign := 4. Definition LConditional := 5.
@@ -116,7 +117,7 @@ Definition op_eqb (a b : op) : bool :=
   | BMulAssign, BMulAssign | BDivAssign, BDivAssign | BRemAssign, BRemAssign | BPowAssign, BPowAssign
   | BShlAssign, BShlAssign | BShrAssign, BShrAssign | BUShrAssign, BUShrAssign | BBitOrAssign, BBitOrAssign
   | BBitAndAssign, BBitAndAssign | BBitXorAssign, BBitXorAssign | BNullishAssign, BNullishAssign
-  | BLogOrAssign, BLogOrAssign | BLogAndAssign, BLogAndAssign | UAwait, UAwait => true
+  | BLogOrAssign, BLogOrAssign | BLogAndAssign, BLogAndAssign | UAwait, UAwait | UYield, UYield => true
   | _, _ => false
   end.
 Definition op_code (o : op) : Z := index_of op_eqb o all_ops 0.
@@ -307,7 +308,7 @@ Fixpoint print_items (mw : bool) (fi ss : bool) (level : Z) (e : expr) : list it
       paren wrap
         (match op_kind o with
          | KPost => print_items mw false (ss && negb wrap) (LPostfix - 1) v ++ [IOp o]
-         | _ => [IOp o] ++ print_items mw false false (LPrefix - 1) v
+         | _ => [IOp o] ++ print_items mw (op_eqb o UYield && fi && negb wrap) false (op_level o - 1) v
          end)
   | EBin o l r =>
       let lv := op_level o in
